@@ -70,6 +70,23 @@ func (r *RT) Close() {
 	r.wg.Wait()
 }
 
+// Fingerprint compiles src on its own and returns the code fingerprint that
+// Runtime.VerifHandles reports for a VM running it ("" if it does not compile).
+func Fingerprint(src string) string {
+	if f, ok := fpCache[src]; ok {
+		return f
+	}
+	p, err := mt.Load("fp.mtail", src, mt.Opts{})
+	f := ""
+	if err == nil {
+		f = runtime.VerifFingerprint(p.VM)
+	}
+	fpCache[src] = f
+	return f
+}
+
+var fpCache = map[string]string{}
+
 func Hash(src string) string {
 	h := sha256.Sum256([]byte(src))
 	return hex.EncodeToString(h[:])
